@@ -1105,6 +1105,8 @@ def gen_mgmt(rng, focus, cfg, pool, has_arch):
 # =========================================================================================
 # judging whole cases
 
+REC_PROPS = ('C01', 'C02', 'C05', 'C07', 'C15')
+
 NONTRIVIAL = {
     'C01': lambda r: r.cnt.get('calls_hit', 0) > 0 and (r.cnt.get('calls_load', 0) > 0 or 'reenter_after_evict' in r.flags),
     'C02': lambda r: 'reenter_after_evict' in r.flags or r.cnt.get('calls_load', 0) > 0,
@@ -1224,6 +1226,19 @@ def run_shard(prop, tier, seed, shard, nshards, opts):
     nt = NONTRIVIAL[prop]
     while i < n_total and time.time() - t0 < budget:
         rng = gen.make_rng('cachemon', prop, seed, i)
+        if prop in REC_PROPS and i % 8 == 7:
+            # re-entrant histories: the probe calls itself through the wrapper (recmon)
+            from kv import recmon
+            case = recmon.gen_case(rng, prop)
+            r, viol = recmon.run_case(case, prop)
+            res['cases'] += 1
+            for k, v in r.cnt.items():
+                res['counters'][k] = res['counters'].get(k, 0) + v
+            for v in viol:
+                if len(res['violations']) < 200:
+                    res['violations'].append(v)
+            i += nshards
+            continue
         case = gen_case(rng, prop)
         case['selftest'] = (i % 10 == 0)
         r, viol = run_case(case, prop)
@@ -1251,7 +1266,11 @@ def run_shard(prop, tier, seed, shard, nshards, opts):
 
 def replay(v, prop):
     case = v['case']
-    r, viol = run_case(case, prop)
+    if case.get('rec'):
+        from kv import recmon
+        r, viol = recmon.run_case(case, prop)
+    else:
+        r, viol = run_case(case, prop)
     return [x for x in viol if x['property'] == prop]
 
 
